@@ -370,9 +370,20 @@ std::string op_handshake(const std::vector<std::string>& t) {
     }
     const bool conn = node->sessions_.is_connected(peer);
     const std::string state = hs_state(peer);
+    // Hang up and wait until the session's reader thread has left receive_loop: this manager was never
+    // start()ed, so its destructor would not wait for the thread.
+    std::shared_ptr<network::SessionManager::Session> sess;
+    if (r) {
+        std::scoped_lock lock(node->sessions_.sessions_mutex_);
+        const auto it = node->sessions_.sessions_.find(peer_id_to_string(peer));
+        if (it != node->sessions_.sessions_.end()) sess = it->second;
+    }
     ::close(sv[0]);
     if (!r) ::close(sv[1]);
-    for (int i = 0; i < 400 && node->sessions_.is_connected(peer); ++i) ::usleep(5000);
+    if (sess) {
+        for (int i = 0; i < 2000 && sess->alive.load(); ++i) ::usleep(2000);
+        if (sess->alive.load()) return "session-reader-did-not-stop";
+    }
     return std::string("r=") + (r ? "1" : "0") + facts + state + " ack=" + (ack ? "1" : "0") + " conn=" + (conn ? "1" : "0");
 }
 
@@ -393,6 +404,9 @@ int main(int argc, char** argv) {
         if (t[0] == "th" && t.size() == 5) return vh::op_handshake(t);
         return "bad-op";
     };
+    // session reader threads log to std::cerr, which is tied to std::cout by default: an unsynchronised
+    // flush of our output buffer from another thread duplicates lines
+    std::cerr.tie(nullptr);
     const int rc = verif::run_lines(argc, argv, h);
     vh::node.reset();
     return rc;
